@@ -939,6 +939,9 @@ def b_str(I, args, kwargs):
     if not args:
         return ""
     v = args[0]
+    if isinstance(v, Opaque):
+        # str() of an opaque value: a function of that value
+        return Opaque(z3.Function("str_of", OpaqueSort, OpaqueSort)(v.t), "str")
     if isinstance(v, (Sym, SObj)):
         I.ctx.dropped.add("str()/repr() of symbolic value (opaque)")
         return Opaque(I.ctx.fresh_const("str", OpaqueSort), "str")
